@@ -808,7 +808,8 @@ def run_plain(line, debug):
     """parsing and scanning (not requests) at a log level: the plain component's line behind a `level` prefix"""
     import comp_parsers
     base = line[len('level'):]
-    fn = {'ubx': comp_parsers.real_ubx, 'nmea': comp_parsers.real_nmea, 'scan': real_scan}[base.split('|')[0].replace('scanseq', 'scan')]
+    fn = {'ubx': comp_parsers.real_ubx, 'nmea': comp_parsers.real_nmea, 'scan': real_scan, 'gpsdtx': real_gpsdtx, 'gpsd': real_gpsd,
+          'tty': real_tty}[base.split('|')[0].replace('scanseq', 'scan')]
     log_level(debug)
     try:
         return fn(base)
@@ -819,7 +820,7 @@ def run_plain(line, debug):
 
 
 def is_plain(line):
-    return line.startswith(('levelubx|', 'levelnmea|', 'levelscan|', 'levelscanseq|'))
+    return line.startswith(('levelubx|', 'levelnmea|', 'levelscan|', 'levelscanseq|', 'levelgpsdtx|', 'levelgpsd|', 'leveltty|'))
 
 
 def real_level(line):
@@ -860,6 +861,13 @@ def gen_level(rng, n, profile):
     for ln in comp_parsers.gen_nmea(rng, max(10, n // 6), 'chunks'):
         yield 'level' + ln
     for ln in gen_scan(rng, max(20, n // 4), 'scan'):
+        yield 'level' + ln
+    # the back ends at DEBUG: gpsd command framing and replies (text or not), gpsd handshake, serial transmit / recover
+    for ln in gen_gpsdtx(rng, max(10, n // 10), 'gpsdtx'):
+        yield 'level' + ln
+    for ln in gen_gpsd(rng, max(30, n // 5), 'gpsd'):
+        yield 'level' + ln
+    for ln in gen_tty(rng, 5, 'tty'):
         yield 'level' + ln
     names = [c for c in CLASSES if c not in ('UbxAckAck', 'UbxAckNak', 'UbxMgaAckData0')]
     for k in range(n):
@@ -1123,6 +1131,8 @@ class FakeSocketModule:
             FakeSocketModule.log.append((op,) + a)
             if FakeSocketModule.script.get('fail') == op:
                 raise real_socket.error('scripted failure of ' + op)
+            if FakeSocketModule.script.get('timeout') == op:
+                raise real_socket.timeout('scripted time-out of ' + op)
 
         def connect(self, addr):
             self._step('connect', addr)
@@ -1278,7 +1288,7 @@ def oracles_gpsd(line, real_out):
 def rand_json(rng, depth=0):
     k = rng.random()
     if depth > 2 or k < .35:
-        return rng.choice([None, True, False, 5, 1.5, 'class', 'abc', 'VERSION', 'DEVICES', '/dev/a'])
+        return rng.choice([None, True, False, 5, 1.5, 'class', 'abc', 'VERSION', 'DEVICES', '/dev/a', 'devices', 'Devices', 'version', 'gpsd_msg', 'DEVICE'])
     if k < .55:
         return [rand_json(rng, depth + 1) for _ in range(rng.randrange(0, 3))]
     d = {}
@@ -1314,6 +1324,10 @@ def gen_gpsd(rng, n, profile):
                 elif k < .64:
                     toks.append(rng.choice('Bb'))
                     continue
+                elif k < .72:
+                    # objects of OTHER classes that look like reports: other spelling, other case, names of internals
+                    v = {'class': rng.choice(['devices', 'Devices', 'version', 'Version', 'DEVICE', 'gpsd_msg', 'GPSD_MSG', 'WATCH', 'TPV', 'ERROR', '']),
+                         **rng.choice([{}, {'devices': [{'path': rng.choice(devs)}]}, {'devices': 7}, {'release': '9.9'}, {'path': rng.choice(devs)}])}
                 else:
                     v = rand_json(rng)
                     if not wellformed_json(v):
@@ -1333,6 +1347,8 @@ def real_gpsdtx(line):
         FakeSocketModule.log.clear()
         if reply.startswith('E'):
             FakeSocketModule.script = {'fail': reply[1:], 'recv': [b'OK']}
+        elif reply.startswith('T'):
+            FakeSocketModule.script = {'timeout': reply[1:], 'recv': [b'OK']}
         else:
             FakeSocketModule.script = {'recv': [bytes.fromhex(reply)]}
         ok = g._transmit(bytearray(bytes.fromhex(data)))
@@ -1345,6 +1361,10 @@ def real_gpsdtx(line):
 def oracles_gpsdtx(line, real_out):
     _, dev, data, reply = line.split('|')
     cmd = b'&' + bytes.fromhex(dev) + b'=' + data.encode()
+    if reply.startswith('T'):
+        reply = 'E' + reply[1:]         # a time-out is a socket error like any other
+    if not reply.startswith('E') and any(b >= 0xF8 for b in bytes.fromhex(reply)):
+        return [], []                   # a reply that is not text: the code lets UnicodeDecodeError escape (DESIGN.md, C12 partial)
     if reply.startswith('E'):
         okrep = reply[1:] in ('shutdown', 'close')       # the scripted reply "OK" was read before the failing call
     else:
@@ -1367,6 +1387,9 @@ def gen_gpsdtx(rng, n, profile):
             yield f'gpsdtx|{dev.encode().hex()}|{rand_payload(rng, rng.choice([0, 1, 8, 40])).hex()}|{rep.hex()}'
         for op in ('connect', 'settimeout', 'sendall', 'recv', 'shutdown', 'close'):
             yield f'gpsdtx|{dev.encode().hex()}|{rand_payload(rng, 8).hex()}|E{op}'
+            yield f'gpsdtx|{dev.encode().hex()}|{rand_payload(rng, 8).hex()}|T{op}'
+        for rep in (b'OK\xff', b'\xff\xfeACK', b'{"class":"ERROR","message":"\xff'):
+            yield f'gpsdtx|{dev.encode().hex()}|{rand_payload(rng, 8).hex()}|{rep.hex()}'
     for _ in range(n):
         dev = '/dev/' + ''.join(rng.choice('abcXYZ019_-.') for _ in range(rng.randrange(1, 12)))
         yield f'gpsdtx|{dev.encode().hex()}|{frame(rng.randrange(256), rng.randrange(256), rand_payload(rng, rng.randrange(0, 40))).hex()}|{rng.choice(replies).hex()}'
